@@ -1011,7 +1011,8 @@ class SyncObj(object):
                 if success:
                     if self.__raftMatchIndex[node] < currentNodeIdx:
                         self.__raftMatchIndex[node] = currentNodeIdx
-                        self.__raftNextIndex[node] = nextNodeIdx
+                        # Later batches may already be on their way, do not rewind
+                        self.__raftNextIndex[node] = max(self.__raftNextIndex[node], nextNodeIdx)
                 self.__lastResponseTime[node] = monotonicTime()
 
     def __callErrCallback(self, err, callback):
